@@ -102,7 +102,7 @@ class C14(Prop):
         "numpy global RNG seeded from the generated case (funsor's numpy backend draws from it)",
         "dense Gaussian closed forms as in C13; Delta terms are located through the public Delta.terms attribute",
     )
-    cases = {"quick": 2000, "thorough": 80000}
+    cases = {"quick": 4000, "thorough": 80000}
 
     def strategy(self, tier):
         return cases()
